@@ -47,7 +47,8 @@ SCORER_SPECS = [{"cls": "L2Cost"}, {"cls": "L2Cost", "param": 0.5}, {"cls": "Gau
                 {"cls": "GaussianVarCost", "param": {"tuple": [{"array": [0.0, 1.0]}, {"array": [1.0, 1e-9]}]}},
                 {"cls": "L2Cost", "param": {"array": [0.5, -1.5, 2.0]}}]
 SHARE_KEY = {"PELT": "cost", "MovingWindow": "change_score", "SeededBinarySegmentation": "change_score",
-             "CircularBinarySegmentation": "anomaly_score", "CAPA": "collective_saving", "MVCAPA": "collective_saving"}
+             "CircularBinarySegmentation": "anomaly_score", "CAPA": "collective_saving", "MVCAPA": "collective_saving",
+             "StatThresholdAnomaliser": "change_detector"}  # (the object an anomaliser shares is a detector: facet shared_wrapped_detector only)
 
 
 def describe(obj):
@@ -658,7 +659,7 @@ def make_machine(tier, api):
             params, _ = data.draw(K.detector_params(det, 1, max_msl=3, max_bw=3, allow_cov=True))
             spec = K.detector_spec(det, params)
             op = {"op": "new_detector", "slot": slot, "spec": spec}
-            if share is not None and det in SHARE_KEY and share in self.interp.shared:
+            if share is not None and det in SHARE_KEY and det != "StatThresholdAnomaliser" and share in self.interp.shared:
                 sspec = self.interp.shared_spec[share]
                 fixed = sspec.get("param") is not None
                 ok = (fixed and (sspec["cls"] != "GaussianCovCost" or det == "CAPA") and sspec["cls"] != "L1Cost") \
@@ -927,6 +928,50 @@ def check_interleaved(case):
 
 
 @st.composite
+def shared_wrapped_histories(draw, tier):
+    """One change detector object is handed to two StatThresholdAnomalisers (the same segmentation, two statistics), which are
+    fitted on DIFFERENT series and then asked in turn. Each must answer like a freshly built anomaliser with a change detector
+    of its own, fitted on its own series (tuned thresholds make the fitted state of the wrapped detector visible)."""
+    inner = draw(st.sampled_from(["MovingWindow", "SeededBinarySegmentation", "MovingWindow", "PELT"]))
+    ip, n_min = draw(K.detector_params(inner, 1, max_msl=3, max_bw=4, allow_cov=False))
+    if "threshold_scale" in ip and draw(st.integers(0, 3)) > 0:
+        ip = dict(ip, threshold_scale=None, level=draw(st.sampled_from([0.05, 0.1, 0.2, 0.3])))
+    wrapped = dict(cls=inner, **ip)
+    stats = [draw(st.sampled_from(["np.mean", "np.median", "np.max", "range", "method_std", "roughness"])) for _ in range(2)]
+    bounds = [draw(st.sampled_from([(-1.0, 1.0), (-0.5, 0.5), (0.0, 2.0), (-3.0, 0.5)])) for _ in range(2)]
+    ops = [{"op": "new_shared", "id": 0, "spec": wrapped}]
+    for i in range(2):
+        ops.append({"op": "new_detector", "slot": i, "share": 0,
+                    "spec": {"cls": "StatThresholdAnomaliser", "change_detector": None, "stat": {"callable": stats[i]},
+                             "stat_lower": bounds[i][0], "stat_upper": bounds[i][1]}})
+    order = draw(st.permutations([0, 1]))
+    ops += [{"op": "fit", "slot": i, "data": i} for i in order]
+    for _ in range(draw(st.integers(2, 6))):
+        what = draw(st.integers(0, 9))
+        slot = draw(st.integers(0, 1))
+        if what == 0:
+            ops.append({"op": "fit", "slot": slot, "data": draw(st.integers(0, 2))})
+        else:
+            ops.append({"op": ("predict", "transform", "predict")[what % 3], "slot": slot, "data": draw(st.integers(0, 2))})
+    n = draw(st.integers(max(n_min, 16), max(n_min, 16) + 30))
+    datasets = []
+    for k in range(3):  # bulk data last (see strategies/data.py); different lengths: tuned thresholds and penalties differ
+        X, _ = draw(D.structured_matrix(n + 7 * k, 1, exact=False, max_shifts=2, max_spikes=1, max_bumps=1, min_noise_scale=0.5))
+        datasets.append(X)
+    return {"datasets": datasets, "ops": ops}
+
+
+def check_shared_wrapped(case):
+    info = check(case)
+    wrapped = case["ops"][0]["spec"]
+    info["classes"] = list(info.get("classes", [])) + [f"wrapped={wrapped['cls']}"] + \
+        (["tuned_threshold"] if wrapped.get("threshold_scale", 0) is None else [])
+    outputs = [op for op in case["ops"] if op["op"] in ("predict", "transform")]
+    info["nontrivial"] = len({op["slot"] for op in outputs}) == 2
+    return info
+
+
+@st.composite
 def reconfigure_histories(draw, tier):
     """The scan loop: one detector object is used on a series, re-configured with set_params (bandwidth, minimum / maximum
     lengths, growth factor, scales, levels ...) and used again on a series of the SAME length - repeatedly. Whatever the
@@ -995,6 +1040,12 @@ FACETS = [
                 "transform_scores on fewer columns; every outcome (value or exception class) must equal that of a freshly built object; "
                 "non-trivial = produces outputs on >= 2 datasets"),
           n_quick=160, n_thorough=3000, shards_quick=4, shards_thorough=8, max_samples=2),
+    Facet(name="shared_wrapped_detector", check=check_shared_wrapped, strategy=shared_wrapped_histories,
+          rule=("generated histories: ONE change detector object (MovingWindow / SeededBinarySegmentation / PELT, tuned threshold in 3 of 4) handed to "
+                "two StatThresholdAnomalisers with their own statistic and bounds, fitted on different series (lengths n, n + 7, n + 14) in either order, "
+                "then 2-6 predict / transform / refit steps in turn; every outcome must equal that of a freshly built anomaliser with a change detector "
+                "of its own fitted on its own series; non-trivial = both anomalisers produce output"),
+          n_quick=120, n_thorough=2500, shards_quick=4, shards_thorough=8, max_samples=2),
     Facet(name="reconfigured_same_length", check=check_reconfigure, strategy=reconfigure_histories,
           rule=("generated histories (the scan loop): one detector used on a series, re-configured through set_params with 1-3 further generated "
                 "configurations (bandwidth, minimum / maximum lengths, growth factor, scales, levels, min_detection_interval ...) and after each "
